@@ -612,6 +612,7 @@ func fsPlan(id string) func(cx *CheckCtx) int {
 		cx.Extra["commands_given_again_after_crash"] = stats.Retries
 		cx.Extra["fault_points"] = stats.FaultPoints
 		cx.Extra["fault_positions_unreached"] = stats.Unreached
+		cx.Extra["faults_landed_on_another_call"] = stats.Moved
 		cx.Extra["commands_recorded"] = stats.Commands
 		cx.Extra["positions_by_command"] = stats.ByCmd
 		cx.Extra["real_kill_crosschecked"] = stats.KillChecked
@@ -642,6 +643,7 @@ func mergeStats(a, b *fsStats) {
 	a.Commands += b.Commands
 	a.Drift += b.Drift
 	a.Retries += b.Retries
+	a.Moved += b.Moved
 	a.Protocol = append(a.Protocol, b.Protocol...)
 	for k, v := range b.ByCmd {
 		a.ByCmd[k] += v
